@@ -236,6 +236,31 @@ Proof.
   - intros e [<-|[<-|[]]]; unfold movable, fid, LAST_ALLOWED; cbn [fst snd]; vm_compute; [right|left]; try split; discriminate.
 Qed.
 
+(* ... and this holds for EVERY feature record, not the first of each tag: a record
+   holds a clone of its tag's name ids (at positions `pos` of the reference list), so
+   after remap_name_ids each id the record holds is the adjusted id, under which
+   (previous theorem) the merged table has exactly the FEA's records.  A second
+   `ss01` record (script-specific rules, or the tag in GSUB and GPOS) therefore
+   refers to the same moved name as the first. *)
+Theorem every_feature_record_follows_its_names : forall fin recs r pos (sz : bool),
+  255 < max_name_id fin ->
+  let off := max_name_id fin - 255 in
+  let r' := snd (remap (max_name_id fin + 1) recs r) in
+  record_ids (if sz then r_size r' else r_adj r') pos
+  = map (adjust_id off) (record_ids (if sz then r_size r else r_adj r) pos).
+Proof.
+  intros fin recs r pos sz HM off r'. subst r'. rewrite remap_shape by lia.
+  replace (max_name_id fin + 1 - 256) with off by (subst off; lia).
+  cbn [snd r_adj r_size]. destruct sz; apply record_ids_remap.
+Qed.
+Print Assumptions every_feature_record_follows_its_names.
+
+Example every_feature_record_nonvacuous :
+  255 < max_name_id ex_fin
+  /\ records_agree (snd (remap (max_name_id ex_fin + 1) [] {| r_adj := [256; 257]; r_size := [258]; r_elided := None; r_all := [] |}))
+       [(false, [0%nat], [258]); (false, [0%nat], [258]); (false, [1%nat], [259]); (true, [0%nat], [260])] = true.
+Proof. split; reflexivity. Qed.
+
 (* A static font (no IR name above 255): FEA ids and references are left alone. *)
 Theorem static_font_refs_intact : forall fin b r,
   max_name_id fin = 255 -> fea_remapped fin b r = (fnb_build b, r).
